@@ -5,3 +5,4 @@ import MsiModel.Timestamp
 import MsiModel.Value
 import MsiModel.Expr
 import MsiModel.WireExpr
+import MsiModel.CodePage
